@@ -190,7 +190,7 @@ func refPoint(curve string, b []byte) (*refcurve.Curve, refcurve.Point, error) {
 		p, _, err := refcurve.DecodeEd25519(b)
 		return c, p, err
 	case "pallas":
-		c := refcurve.Pallas()
+		c := minaPallas()
 		p, _, err := c.DecodePasta(b)
 		return c, p, err
 	}
@@ -205,4 +205,18 @@ func reverse(b []byte) []byte {
 		o[i] = b[len(b)-1-i]
 	}
 	return o
+}
+
+// minaPallas is the Pallas curve of the reference model with the base point the library (and
+// Mina) uses, (1, 0x1b74...2abb), instead of the pasta_curves generator (-1, 2). Same group,
+// different conventional generator; the constant is typed in and checked in the model.
+func minaPallas() *refcurve.Curve {
+	c := *refcurve.Pallas()
+	y, _ := new(big.Int).SetString("1b74b5a30a12937c53dfa9f06378ee548f655bd4333d477119cf7a23caed2abb", 16)
+	g, err := c.FromAffine(big.NewInt(1), y)
+	if err != nil || !c.IsInPrimeSubgroup(g) {
+		panic("mina pallas generator is not a valid point of the model")
+	}
+	c.G = g
+	return &c
 }
